@@ -32,6 +32,8 @@ pub fn run(ctx: &Ctx) -> Report {
 			if *level == 0 {
 				all.extend(domains::long_paths(false));
 				all.extend(domains::long_paths(true));
+				// every printable ASCII character, one at a time, in first / inner / last segments
+				all.extend(domains::ascii_sweep(&["X", "/X", "X/", "aXb", "a/X/b", "X/a", "a/X", "/a/bX", "Xa/b", "/X/X"]));
 			}
 			let shards = 64usize;
 			let r = run_shards(ctx, shards, |si| {
